@@ -169,14 +169,36 @@ Fixpoint boolfold_ev {X} (ev : X -> res F) (op : bfun) (acc : bool) (l : list X)
       end
   end.
 
-(* tmp = tmp op (ev k item ev v) over a dictionary *)
-Fixpoint dictfold_ev {K V} (evk : K -> res F) (evv : V -> res F) (op item : bfun) (acc : F)
-         (d : list (K * V)) : res F :=
+(* tmp = tmp op (term k v) over a dictionary *)
+Fixpoint dictfold_ev {K V} (term : K -> V -> res F) (op : bfun) (acc : F) (d : list (K * V)) : res F :=
   match d with
   | [] => Ok acc
-  | (k, v) :: r =>
-      do kv <- evk k; do vv <- evv v; do t <- lift (f_bin A item kv vv);
-      do a <- lift (f_bin A op acc t); dictfold_ev evk evv op item a r
+  | (k, v) :: r => do t <- term k v; do a <- lift (f_bin A op acc t); dictfold_ev term op a r
+  end.
+
+(* the value of one dictionary entry: apply(k) item apply(v), or the E case *)
+Definition dict_term {K V} (evk : K -> res F) (evv : V -> res F) (isE : K -> bool) (item : bfun)
+           (val_first : bool) (ecase : option fterm) (k : K) (v : V) : res F :=
+  match ecase, isE k with
+  | Some t, true => do vv <- evv v; lift (interp t [vv])
+  | _, _ =>
+      if val_first then (do vv <- evv v; do kv <- evk k; lift (f_bin A item kv vv))
+      else (do kv <- evk k; do vv <- evv v; lift (f_bin A item kv vv))
+  end.
+
+(* EvalDoubleVisitor::bvisit(const Constant &): closed formulas by name *)
+Definition eval_constant (t : list (list N * fterm)) (e : expr) : res F :=
+  match e with
+  | EConst nm => match const_find nm t with Some ft => lift (interp ft []) | None => ErrExn EXN_NOTIMPL end
+  | _ => ErrExn EXN_STD
+  end.
+
+(* T tmp = eval_double(x) for a Constant x: the Constant rule of the eval_double table *)
+Definition eval_const_via (vtbl : list (N * rule)) (e : expr) : res F :=
+  match rule_of vtbl e with
+  | RConstants t => eval_constant t e
+  | RThrow c => ErrExn c
+  | _ => ErrExn EXN_NOMODEL
   end.
 
 (* Piecewise: first branch whose condition evaluates to 1.0; n = number of branches *)
@@ -208,10 +230,11 @@ Fixpoint eval (fuel : nat) (vtbl tbl : list (N * rule)) (syms : list expr) (inp 
     | RFormula sel t =>
         do vs <- mapM (fun i => do c <- nth_child e i; ev c) sel; lift (interp t vs)
     | RFoldArgs init op => fold_ev ev op (f_lit A init) (children e)
-    | RFoldDict op item =>
+    | RFoldDict op item vf ecase =>
         match e with
-        | EAdd c d => do a0 <- ev (ENum c); dictfold_ev ev (fun v => ev (ENum v)) op item a0 d
-        | EMul c d => do a0 <- ev (ENum c); dictfold_ev ev ev op item a0 d
+        | EAdd c d => do a0 <- ev (ENum c);
+                      dictfold_ev (dict_term ev (fun v => ev (ENum v)) is_E item vf ecase) op a0 d
+        | EMul c d => do a0 <- ev (ENum c); dictfold_ev (dict_term ev ev is_E item vf ecase) op a0 d
         | _ => ErrExn EXN_STD
         end
     | RPow _ ecase gen =>
@@ -227,12 +250,8 @@ Fixpoint eval (fuel : nat) (vtbl tbl : list (N * rule)) (syms : list expr) (inp 
         | EPow b x => do bv <- ev b; do xv <- ev x; lift (interp gen [bv; xv])
         | _ => ErrExn EXN_STD
         end
-    | RConstants t =>
-        match e with
-        | EConst nm => match const_find nm t with Some ft => lift (interp ft []) | None => ErrExn EXN_NOTIMPL end
-        | _ => ErrExn EXN_STD
-        end
-    | RConstViaEval => eval fu vtbl vtbl [] [] [] e
+    | RConstants t => eval_constant t e
+    | RConstViaEval => eval_const_via vtbl e
     | RFoldFirst op from =>
         match children e with
         | [] => ErrOOB 0 0
@@ -284,7 +303,10 @@ Inductive clo :=
 | KSlot (i : nat)                        (* *cse_intermediate_result, a pointer into the buffer *)
 | KVal (v : F)                           (* a captured constant *)
 | KForm (t : fterm) (ks : list clo)
-| KFoldDict (op item : bfun) (k0 : clo) (items : list (clo * clo))
+| KPow (gen : fterm) (bk xk : clo)       (* std::pow(base_(x), exp_(x)): exponent first, like eval *)
+| KFoldArgs (init : F) (op : bfun) (ks : list clo)
+| KFoldDict (op item : bfun) (val_first : bool) (ecase : option fterm) (k0 : clo)
+            (items : list (option clo * clo))      (* key None: the E case *)
 | KFoldFirst (op : bfun) (from : nat) (ks : list clo)
 | KBoolFold (op : bfun) (from : nat) (ks : list clo)
 | KPw (bounded : bool) (l : list (clo * clo)).
@@ -295,10 +317,17 @@ Fixpoint mapM_pair {X Y} (f : X -> res Y) (l : list (X * X)) : res (list (Y * Y)
   | (a, b) :: r => do a' <- f a; do b' <- f b; do r' <- mapM_pair f r; Ok ((a', b') :: r')
   end.
 
-Fixpoint mapM_dict {K V Y} (fk : K -> res Y) (fv : V -> res Y) (l : list (K * V)) : res (list (Y * Y)) :=
+(* the closures of a dictionary: for each entry apply(v) and (unless it is the E case) apply(k),
+   in the order of the source *)
+Fixpoint mapM_dict {K V Y} (fk : K -> res Y) (fv : V -> res Y) (isE : K -> bool) (val_first : bool)
+         (ecase : bool) (l : list (K * V)) : res (list (option Y * Y)) :=
   match l with
   | [] => Ok []
-  | (a, b) :: r => do a' <- fk a; do b' <- fv b; do r' <- mapM_dict fk fv r; Ok ((a', b') :: r')
+  | (a, b) :: r =>
+      do it <- (if ecase && isE a then (do b' <- fv b; Ok (None, b'))
+                else if val_first then (do b' <- fv b; do a' <- fk a; Ok (Some a', b'))
+                else (do a' <- fk a; do b' <- fv b; Ok (Some a', b')));
+      do r' <- mapM_dict fk fv isE val_first ecase r; Ok (it :: r')
   end.
 
 (* LambdaRealDoubleVisitor::apply.  cmap: cse_intermediate_fns_map; bufsz: size of
@@ -316,18 +345,21 @@ Fixpoint compile (fuel : nat) (vtbl tbl : list (N * rule)) (syms : list expr)
     | RFormula sel t =>
         do ks <- mapM (fun i => do c <- nth_child e i; cp c) sel; Ok (KForm t ks)
     | RFoldArgs init op =>
-        do ks <- mapM cp (children e); Ok (KFoldFirst op 1 (KVal (f_lit A init) :: ks))
-    | RFoldDict op item =>
+        do ks <- mapM cp (children e); Ok (KFoldArgs (f_lit A init) op ks)
+    | RFoldDict op item vf ecase =>
+        let ec := match ecase with Some _ => true | None => false end in
         match e with
-        | EAdd c d => do k0 <- cp (ENum c); do items <- mapM_dict cp (fun v => cp (ENum v)) d; Ok (KFoldDict op item k0 items)
-        | EMul c d => do k0 <- cp (ENum c); do items <- mapM_dict cp cp d; Ok (KFoldDict op item k0 items)
+        | EAdd c d => do k0 <- cp (ENum c); do items <- mapM_dict cp (fun v => cp (ENum v)) is_E vf ec d;
+                      Ok (KFoldDict op item vf ecase k0 items)
+        | EMul c d => do k0 <- cp (ENum c); do items <- mapM_dict cp cp is_E vf ec d;
+                      Ok (KFoldDict op item vf ecase k0 items)
         | _ => ErrExn EXN_STD
         end
     | RPow _ ecase gen =>
         match e with
         | EPow b x =>
             do xk <- cp x;
-            if is_E b then Ok (KForm ecase [xk]) else (do bk <- cp b; Ok (KForm gen [bk; xk]))
+            if is_E b then Ok (KForm ecase [xk]) else (do bk <- cp b; Ok (KPow gen bk xk))
         | _ => ErrExn EXN_STD
         end
     | RPowPlain gen =>
@@ -340,7 +372,7 @@ Fixpoint compile (fuel : nat) (vtbl tbl : list (N * rule)) (syms : list expr)
         | EConst nm => match const_find nm t with Some ft => Ok (KForm ft []) | None => ErrExn EXN_NOTIMPL end
         | _ => ErrExn EXN_STD
         end
-    | RConstViaEval => do v <- eval fu vtbl vtbl [] [] [] e; Ok (KVal v)
+    | RConstViaEval => do v <- eval_const_via vtbl e; Ok (KVal v)
     | RFoldFirst op from =>
         match children e with
         | [] => ErrOOB 0 0
@@ -397,7 +429,18 @@ Fixpoint run (fuel : nat) (inp buf : list F) (k : clo) {struct fuel} : res F :=
     | KSlot i => match nth_error buf i with Some v => Ok v | None => ErrOOB (N.of_nat i) (N.of_nat (length buf)) end
     | KVal v => Ok v
     | KForm t ks => do vs <- mapM rn ks; lift (interp t vs)
-    | KFoldDict op item k0 items => do a0 <- rn k0; dictfold_ev rn rn op item a0 items
+    | KPow gen bk xk => do xv <- rn xk; do bv <- rn bk; lift (interp gen [bv; xv])
+    | KFoldArgs init op ks => fold_ev rn op init ks
+    | KFoldDict op item vf ecase k0 items =>
+        do a0 <- rn k0;
+        dictfold_ev (fun (ko : option clo) v =>
+                       match ko with
+                       | Some k => dict_term rn rn (fun _ => false) item vf None k v
+                       | None => match ecase with
+                                 | Some t => do vv <- rn v; lift (interp t [vv])
+                                 | None => ErrExn EXN_STD
+                                 end
+                       end) op a0 items
     | KFoldFirst op from ks =>
         match ks with
         | [] => ErrOOB 0 0
@@ -415,4 +458,4 @@ Fixpoint run (fuel : nat) (inp buf : list F) (k : clo) {struct fuel} : res F :=
 End EVAL.
 
 Arguments KIn {F}. Arguments KSlot {F}. Arguments KVal {F}. Arguments KForm {F}.
-Arguments KFoldDict {F}. Arguments KFoldFirst {F}. Arguments KBoolFold {F}. Arguments KPw {F}.
+Arguments KPow {F}. Arguments KFoldArgs {F}. Arguments KFoldDict {F}. Arguments KFoldFirst {F}. Arguments KBoolFold {F}. Arguments KPw {F}.
